@@ -198,7 +198,7 @@ func init() {
 			return nil
 		},
 		"verifObserve": func(e *Exec, th *Thread, caller *Frame, site ssa.Instruction, args []Value) Value {
-			s := argStr(e, args[0]) + ":"
+			rec := observeRec{label: argStr(e, args[0])}
 			if sv, ok := args[1].(SliceV); ok && sv.Base != nil {
 				n := int(sv.Len.Int64())
 				for i := 0; i < n; i++ {
@@ -206,10 +206,10 @@ func init() {
 					if iv, ok := v.(IfaceV); ok {
 						v = iv.V
 					}
-					s += " " + describe(v)
+					rec.vals = append(rec.vals, v)
 				}
 			}
-			e.observes = append(e.observes, s)
+			e.observes = append(e.observes, rec)
 			return nil
 		},
 		"verifSymBytes": func(e *Exec, th *Thread, caller *Frame, site ssa.Instruction, args []Value) Value {
@@ -271,6 +271,9 @@ func init() {
 				e.watched[p.Slot] = true
 			}
 			return nil
+		},
+		"verifThorough": func(e *Exec, th *Thread, caller *Frame, site ssa.Instruction, args []Value) Value {
+			return e.ctx.BoolC(e.cfg.Thorough)
 		},
 		"verifIsSymbolic": func(e *Exec, th *Thread, caller *Frame, site ssa.Instruction, args []Value) Value {
 			return e.ctx.BoolC(true)
